@@ -261,16 +261,20 @@ static void exec_line(const char *line_in) {
         for (int which = 0; which < 2; which++) {
             size_t len = which ? 4 * n : n;
             struct { uint8_t *b; size_t n; } d; d.b = malloc(len + 16); d.n = 0;
+            if (na >= 2 && arg[1][0] == 'A') {   /* many tokens: an array of len/2 one-byte integers */
+                d.b[d.n++] = 0x42; for (size_t i = 0; i + 1 < len; i += 2) { d.b[d.n++] = 0x10; d.b[d.n++] = (uint8_t)(i & 0x7f); } d.b[d.n++] = 0x43;
+            } else {
             d.b[d.n++] = 0x40; d.b[d.n++] = 0x14; d.b[d.n++] = 0x01; d.b[d.n++] = 'a';
             if (len <= 127) { d.b[d.n++] = 0x18; d.b[d.n++] = (uint8_t)len; }
             else if (len <= 32767) { d.b[d.n++] = 0x19; d.b[d.n++] = (uint8_t)(len & 255); d.b[d.n++] = (uint8_t)(len >> 8); }
             else { d.b[d.n++] = 0x1a; for (int sh = 0; sh < 32; sh += 8) d.b[d.n++] = (uint8_t)((len >> sh) & 255); }
             memset(d.b + d.n, 0x5a, len); d.n += len; d.b[d.n++] = 0x41;
-            char *dst = malloc(2 * len + 64);
+            }
+            char *dst = malloc(3 * len + 64);
             for (int rep = 0; rep < 3; rep++) {
                 binson_parser ps; binson_state st[2]; memset(&ps, 0, sizeof ps); ps.state = st; ps.max_depth = 2;
-                if (!binson_parser_init_object(&ps, d.b, d.n)) break;
-                size_t sz = 2 * len + 64; struct timespec a, b; clock_gettime(CLOCK_PROCESS_CPUTIME_ID, &a);
+                if (!((na >= 2 && arg[1][0] == 'A') ? binson_parser_init_array(&ps, d.b, d.n) : binson_parser_init_object(&ps, d.b, d.n))) break;
+                size_t sz = 3 * len + 64; struct timespec a, b; clock_gettime(CLOCK_PROCESS_CPUTIME_ID, &a);
                 arm_watchdog_long(); int okr = binson_parser_to_string(&ps, dst, &sz, false); if (getenv("TQDEBUG")) fprintf(stderr, "tq which=%d rep=%d ok=%d sz=%zu err=%d\n", which, rep, okr, sz, (int)ps.error_flags);
                 clock_gettime(CLOCK_PROCESS_CPUTIME_ID, &b);
                 double t = (double)(b.tv_sec - a.tv_sec) + 1e-9 * (double)(b.tv_nsec - a.tv_nsec); if (t < best[which]) best[which] = t;
@@ -309,6 +313,8 @@ static void exec_line(const char *line_in) {
     } else if (!strcmp(op, "wrA") && na >= 2) {   /* binson_write_raw(w, destination + off, len): source aliases the destination */
         NEEDW; size_t off = (size_t)strtoull(arg[0], NULL, 10), len = (size_t)strtoull(arg[1], NULL, 10);
         if (wo->isnull || off + len > wo->cap) fprintf(fout, "skip\n"); else wobs(k, binson_write_raw(wo->w, wo->mem + off, len));
+    } else if (!strcmp(op, "wrH")) {   /* binson_write_raw with an absurd length (SIZE_MAX): used + length wraps around; must be refused with RANGE, nothing read or stored */
+        NEEDW; uint8_t one = 0x5a; wobs(k, binson_write_raw(wo->w, &one, (size_t)-1));
     } else if (!strcmp(op, "wnN")) { NEEDW; wobs(k, binson_write_name(wo->w, NULL)); }
     else if (!strcmp(op, "wrN") && na >= 1) { NEEDW; wobs(k, binson_write_raw(wo->w, NULL, (size_t)strtoull(arg[0], NULL, 10))); }
     else if (!strcmp(op, "wc")) { NEEDW; wobs(k, 1); }
@@ -508,7 +514,7 @@ static int gen_doc(Buf *o, int arr, int want_fault, int budget0) {
     o->n = 0; fault_fired = 0; fault_kind = F_NONE; fault_cd = 0;
     if (want_fault) { fault_kind = 1 + (int)rn(F_NKINDS - 1); fault_cd = (int)rn(6); }
     big_ok = chance(4);
-    if (!want_fault && chance(3)) { gen_deep(o, 1 + (int)rn(chance(20) ? 300 : 14), arr ? (chance(50) ? 1 : 2) : (chance(50) ? 0 : 2)); if (arr && o->b[0] != 0x42) { o->b[0] = 0x42; o->b[o->n - 1] = 0x43; } return 0; }
+    if (!want_fault && chance(3)) { { static const int DB[] = { 253, 254, 255, 256, 257 }; gen_deep(o, chance(25) ? DB[rn(5)] : 1 + (int)rn(chance(20) ? 300 : 14), arr ? (chance(50) ? 1 : 2) : (chance(50) ? 0 : 2)); } if (arr && o->b[0] != 0x42) { o->b[0] = 0x42; o->b[o->n - 1] = 0x43; } return 0; }
     int budget = budget0;
     if (arr) gen_array(o, 0, &budget); else gen_object(o, 0, &budget);
     if (fault_kind == F_TRAIL) { put(o, (uint8_t)(chance(50) ? (arr ? 0x43 : 0x41) : r64())); fault_fired = 1; }
@@ -587,7 +593,8 @@ static void nav_ops(int k, int arr, int maxops, int finish, int all_getters, int
             }
         }
         else if (x < 78) { if (pending) { emit("@%d gr", k); pending = 0; if (!last_ret) return; } }
-        else if (x < 80) { if (pending && W[k].w) { emit("@%d p2w", k); pending = 0; if (!last_ret) return; } }
+        else if (x < 80) { if (pending && W[k].w) { emit("@%d p2w", k); pending = 0; if (!last_ret) return; }
+                           else if (!pending && W[k].w && chance(40)) { emit("@%d p2w", k); emit("@%d wc", k); } }   /* not on a container: refused, nothing changes (writer included) */
         else if (x < 84) { const char *g = GETTERS[rn(top == 'o' ? 8 : 7)]; if (!strcmp(g, "gn") && !(p->current_state && p->current_state->current_name.bptr)) g = "gt"; emit("@%d %s", k, g); }
         else if (x < 86) { emit_se(k, "abc", 3); }
         else if (x < 88) { if (pending && ensure) { emit("@%d N %d", k, (int)binson_parser_get_type(p)); } }   /* not protocol: next_ensure skips the pending one */
@@ -642,7 +649,8 @@ static Buf D;
 static void case_begin(long id) { emit("C %ld", id); }
 
 static void gen_verify(long id) {
-    if (id % 2999 == 5) { case_begin(id); new_parser(0, 2); emit("@0 tq %u", 524288u); return; }   /* C16: time class of to_string on a large bytes value */
+    if (id % 2999 == 5) { case_begin(id); new_parser(0, 2); emit("@0 tq %u", 524288u); return; }
+    if (id % 2999 == 6) { case_begin(id); new_parser(0, 2); emit("@0 tq %u A", 2097152u); return; }   /* ... and on many small tokens (64 Ki vs 256 Ki integers) */   /* C16: time class of to_string on a large bytes value */
     int arr = chance(25); int fault = chance(55);
     gen_doc(&D, arr, fault, 2 + (int)rn(14));
     case_begin(id); new_parser(0, pick_md()); init_doc(0, arr, &D); emit("@0 v");
@@ -667,7 +675,7 @@ static void gen_nav(long id, int all_getters) {
     cont_bias = 45; gen_doc(&D, arr, 0, 3 + (int)rn(16)); cont_bias = 35;
     if (chance(4)) gen_longname_doc(&D, arr);
     case_begin(id); new_parser(0, nav_md(&D, arr)); init_doc(0, arr, &D);
-    if (chance(20)) emit("@0 W %u", 20 + rn(200));
+    if (chance(30)) emit("@0 W %u", 20 + rn(200));
     nav_ops(0, arr, 4 + (int)rn(40), chance(50), all_getters, 1, 1);
 }
 static void gen_walk(long id) {
@@ -726,7 +734,8 @@ static void gen_print(long id, int thorough) {
     if (chance(20)) emit("@0 ts %u %u", 10 + rn(20), rn(10));   /* claimed size smaller than the block */
     if (chance(30)) emit("@0 ts NULL %zu", chance(50) ? need : (size_t)(1 + rn(5000)));
     if (id % 499 == 7) emit("@0 tsH");     /* a capacity beyond INT_MAX */
-    if (id % 1999 == 3) emit("@0 tq %u", 524288u);   /* linear-time class of rendering one large bytes value (512 KiB vs 2 MiB) */   /* size query reusing a variable that still holds an old size */
+    if (id % 1999 == 3) emit("@0 tq %u", 524288u);
+    if (id % 1999 == 4) emit("@0 tq %u A", 2097152u);   /* linear-time class of rendering one large bytes value (512 KiB vs 2 MiB) */   /* size query reusing a variable that still holds an old size */
 }
 /* writer sequences */
 static void emit_wvalue(int k, int depth, int *budget, int wellformed);
@@ -795,6 +804,7 @@ static void gen_writer(long id, int thorough) {
     if (thorough && total <= 300) { for (size_t c = 0; c <= total + 2; c++) { emit("@0 W %zu", c); for (int i = 1; i < nl; i++) { char b[1 << 18]; snprintf(b, sizeof b, "@0%s", lines[i] + 2); emit("%s", b); if (chance(25) || w_err_edge(0)) emit("@0 dump"); } emit("@0 dump"); if (wellformed) { emit("@0 wv"); if (chance(10)) { emit("@0 wb 1"); emit("@0 dump"); emit("@0 wc"); } } } }
     else { if (thorough) ncap = 5; for (int j = 0; j < ncap; j++) { emit("@0 W %zu", caps[j]); for (int i = 1; i < nl; i++) { char b[1 << 18]; snprintf(b, sizeof b, "@0%s", lines[i] + 2); emit("%s", b); if (chance(10) || w_err_edge(0)) emit("@0 dump"); } emit("@0 dump"); if (wellformed) emit("@0 wv"); } }
     if (chance(10)) { emit("@0 W NULL"); emit("@0 wb 1"); emit("@0 wx"); }
+    if (chance(6)) { emit("@0 W %u", 4 + rn(20)); if (chance(70)) emit("@0 wob"); emit("@0 wrH"); emit("@0 dump"); emit("@0 wb 1"); emit("@0 dump"); }   /* size_t wrap-around in the capacity test */
     if (chance(10)) {   /* copy a document that sits in the destination itself a few bytes further (overlapping source and destination) */
         unsigned cap = 24 + rn(40); emit("@0 W %u", cap); emit("@0 wob"); emit("@0 wn 61"); emit("@0 wi %lld", (long long)pick_int()); emit("@0 wn 62"); emit("@0 ws 68656c6c6f"); emit("@0 woe"); emit("@0 dump");
         size_t used = binson_writer_get_counter(W[0].w); if (used <= cap && used >= 4) {
